@@ -153,6 +153,11 @@ func (e *env) setup(seed int64) {
 			lib.Must(err)
 		}
 	}
+	for t := 0; t < 2; t++ { // FX that left over this channel earlier sits in escrow and can come back
+		fx := sdk.NewCoin(fxtypes.DefaultDenom, sdkmath.NewInt(700))
+		c.Mint(transfertypes.GetEscrowAddress(port, e.chans[t]), fx)
+	}
+	c.App.IBCTransferKeeper.SetTotalEscrowForDenom(ctx, sdk.NewCoin(fxtypes.DefaultDenom, sdkmath.NewInt(1400)))
 	for t := 0; t < 2; t++ { // voucher pool of the transfer module
 		lib.Must(c.App.BankKeeper.MintCoins(ctx, transfertypes.ModuleName, sdk.NewCoins(sdk.NewCoin(e.vAlias[t], sdkmath.NewInt(4000)))))
 	}
@@ -282,6 +287,13 @@ func (e *env) gen(avoidKnown bool) []opT {
 			o.Memo = []string{"none", "none", "text", "bad", "call", "call", "callrevert"}[r.Intn(7)]
 			if r.Chance(5) {
 				o.Amt = 0
+			}
+			if strings.HasPrefix(o.Memo, "call") && r.Chance(60) { // a derived sender that has an account
+				if r.Chance(50) {
+					o.Src, o.Sender = 7, 0
+				} else {
+					o.Src, o.Sender = 8, 1
+				}
 			}
 			ops = append(ops, o)
 		case x < 84 && len(inflight) > 0:
